@@ -17,6 +17,7 @@ from .. import strategies as S
 from ..common import dedupe, permuted
 from ..engine import Clause, Violation, require
 from ..oracles.partition import components
+from ..common import with_history  # noqa: E402
 
 ASSUMPTIONS = [
     "oracle = union-find over the filtered node sets of the case (hgxverif/oracles/partition.py) "
@@ -58,6 +59,7 @@ def _labels(ns, U):
 # building
 
 
+@with_history
 def build_hypergraph(case):
     """Returns (Hypergraph, node list, set of frozenset hyperedges, trace)."""
     from hypergraphx import Hypergraph
@@ -349,6 +351,7 @@ def check_isolated(case, ctx):
 LAYERS = ["L1", "l2", "A"]
 
 
+@with_history
 def build_container(case):
     """Returns (object, nodes, list of (node frozenset) one per record, trace, class name)."""
     from hypergraphx import DirectedHypergraph, MultiplexHypergraph, TemporalHypergraph
